@@ -127,6 +127,14 @@ theorem skein_rejects_Nb (Nb No Yl Yf Ym : Nat) (key prs PK kdf non : Option (Li
     Spec.Skein.skein Nb No (key.getD []) (prs.getD []) (PK.getD []) (kdf.getD []) (non.getD []) Yl Yf Ym M (bitsOf M bitlen) = none :=
   hash_bad_Nb Nb No Yl Yf Ym key prs PK kdf non M bitlen hNb
 
+/-- every parameter set outside the specification (state size, a Y value above 255, tree parameters neither all zero nor
+    Yl,Yf ≥ 1 and Ym ≥ 2) is rejected for every message and key, and is undefined in the specification -/
+theorem skein_rejects_params (Nb No Yl Yf Ym : Nat) (key prs PK kdf non : Option (List Nat)) (M : List Nat) (bitlen : Option Nat)
+    (hbad : Spec.Skein.paramsOk Nb Yl Yf Ym = false) :
+    (∃ e, Skein.hash Nb No Yl Yf Ym key prs PK kdf non M bitlen = .error e) ∧
+    Spec.Skein.skein Nb No (key.getD []) (prs.getD []) (PK.getD []) (kdf.getD []) (non.getD []) Yl Yf Ym M (bitsOf M bitlen) = none :=
+  SkTree.hash_bad_params Nb No Yl Yf Ym key prs PK kdf non M bitlen hbad
+
 /-- the result has exactly ⌈No/8⌉ bytes -/
 theorem output_length (Nb No : Nat) (key prs PK kdf non : Option (List Nat)) (M : List Nat) (bitlen : Option Nat)
     (hNb : Nb = 256 ∨ Nb = 512 ∨ Nb = 1024) (hM : IsBytes M) (hMl : M.length < 2 ^ 96) (hL : bitsOf M bitlen ≤ 8 * M.length)
@@ -134,38 +142,26 @@ theorem output_length (Nb No : Nat) (key prs PK kdf non : Option (List Nat)) (M 
     ∃ out, Skein.hash Nb No 0 0 0 key prs PK kdf non M bitlen = .ok out ∧ out.length = (No + 7) / 8 :=
   ⟨_, hash_plain Nb No key prs PK kdf non M bitlen hNb hM hMl hL hk hp hP hd hn⟩
 
-/-
-  FULL STATEMENT (tree hashing, as the property quantifies: every leaf size, fan-out and maximum height the
-  specification admits, i.e. Ym up to 255):
-
-    theorem tree_refines (Nb No Yl Yf Ym …) (hNb : Nb ∈ {256,512,1024}) (1 ≤ Yl ≤ 255) (1 ≤ Yf ≤ 255) (2 ≤ Ym ≤ 255)
-        (hM : IsBytes M) (hL : bitsOf M bitlen ≤ 8·|M|) (|M| + Nb/8·2^Yl + Nb/8·2^Yf < 2^96) (OptOk key …) :
-      (Skein.hash Nb No Yl Yf Ym key prs PK kdf non M bitlen).toOption =
-        Spec.Skein.skein Nb No key prs PK kdf non Yl Yf Ym M (bitsOf M bitlen)
-
-  PROVED below with the extra hypothesis Ym ≤ 127.  What is missing for 128 ≤ Ym ≤ 255: the TreeLevel field has 7 bits and
-  the setter does not mask, so the model (like the code) is only correct while the level counter stays below 128; a tree
-  over a message shorter than 2^96 bytes never gets that high (each level at least halves the data), but that height bound
-  is not proved here.  Every parameter set of the property's grid (Ym ≤ 4) and every practical one is inside Ym ≤ 127.
--/
-
 /-- Skein with tree parameters = the specification's tree hash (3.5.6) followed by the output function: every state size,
     every output length, every message and bit length (the bit padding lands in the last leaf), every leaf size 2^Yl and
-    fan-out 2^Yf, every maximum height 2 ≤ Ym ≤ 127, with or without key / personalisation / public key / kdf id / nonce -/
-theorem tree_refines_partial (Nb No Yl Yf Ym : Nat) (key prs PK kdf non : Option (List Nat)) (M : List Nat) (bitlen : Option Nat)
-    (hNb : Nb = 256 ∨ Nb = 512 ∨ Nb = 1024) (h1 : 1 ≤ Yl) (h2 : 1 ≤ Yf) (h3 : 2 ≤ Ym) (hYl : Yl ≤ 255) (hYf : Yf ≤ 255) (hYm : Ym ≤ 127)
+    fan-out 2^Yf (1 ≤ Yl,Yf ≤ 255), every maximum height 2 ≤ Ym ≤ 255 (all the specification admits), with or without
+    key / personalisation / public key / kdf id / nonce.  The size bound is the specification's limit on UBI positions
+    (96-bit position field).  (The 7-bit TreeLevel field is never overrun: each level at least halves the data, so a
+    message below 2^96 bytes ends below level 100 — part of the proof, not a hypothesis.) -/
+theorem tree_refines (Nb No Yl Yf Ym : Nat) (key prs PK kdf non : Option (List Nat)) (M : List Nat) (bitlen : Option Nat)
+    (hNb : Nb = 256 ∨ Nb = 512 ∨ Nb = 1024) (h1 : 1 ≤ Yl) (h2 : 1 ≤ Yf) (h3 : 2 ≤ Ym) (hYl : Yl ≤ 255) (hYf : Yf ≤ 255) (hYm : Ym ≤ 255)
     (hM : IsBytes M) (hL : bitsOf M bitlen ≤ 8 * M.length)
     (hbound : M.length + Nb / 8 * 2 ^ Yl + Nb / 8 * 2 ^ Yf < 2 ^ 96)
     (hk : OptOk key) (hp : OptOk prs) (hP : OptOk PK) (hd : OptOk kdf) (hn : OptOk non) :
     (Skein.hash Nb No Yl Yf Ym key prs PK kdf non M bitlen).toOption =
       Spec.Skein.skein Nb No (key.getD []) (prs.getD []) (PK.getD []) (kdf.getD []) (non.getD []) Yl Yf Ym M (bitsOf M bitlen) := by
   rw [(SkTree.hash_tree Nb No Yl Yf Ym key prs PK kdf non M bitlen hNb h1 h2 h3 hYl hYf hYm hM hL hbound hk hp hP hd hn).1,
-      SkTree.spec_tree Nb No _ _ _ _ _ M _ Yl Yf Ym hNb h1 h2 h3 hYl hYf (by omega)]
+      SkTree.spec_tree Nb No _ _ _ _ _ M _ Yl Yf Ym hNb h1 h2 h3 hYl hYf hYm]
   rfl
 
 /-- in tree mode too the result has exactly ⌈No/8⌉ bytes -/
 theorem output_length_tree (Nb No Yl Yf Ym : Nat) (key prs PK kdf non : Option (List Nat)) (M : List Nat) (bitlen : Option Nat)
-    (hNb : Nb = 256 ∨ Nb = 512 ∨ Nb = 1024) (h1 : 1 ≤ Yl) (h2 : 1 ≤ Yf) (h3 : 2 ≤ Ym) (hYl : Yl ≤ 255) (hYf : Yf ≤ 255) (hYm : Ym ≤ 127)
+    (hNb : Nb = 256 ∨ Nb = 512 ∨ Nb = 1024) (h1 : 1 ≤ Yl) (h2 : 1 ≤ Yf) (h3 : 2 ≤ Ym) (hYl : Yl ≤ 255) (hYf : Yf ≤ 255) (hYm : Ym ≤ 255)
     (hM : IsBytes M) (hL : bitsOf M bitlen ≤ 8 * M.length)
     (hbound : M.length + Nb / 8 * 2 ^ Yl + Nb / 8 * 2 ^ Yf < 2 ^ 96)
     (hk : OptOk key) (hp : OptOk prs) (hP : OptOk PK) (hd : OptOk kdf) (hn : OptOk non) :
